@@ -261,7 +261,10 @@ func c38OpsDesc(pr base.ProposalSignFact) string {
 }
 
 func c38Run(t ev.TB, r *ev.Rec, w *c38World, p c38Program) (classes []string, nontrivial bool) {
-	pool, err := isaacdatabase.NewTempPool(leveldbstorage.NewMemStorage(), w.db.Encs, w.db.Enc, 0)
+	st := leveldbstorage.NewMemStorage()
+	defer st.Close() // TempPool.Close leaves the goleveldb goroutines of the storage running
+
+	pool, err := isaacdatabase.NewTempPool(st, w.db.Encs, w.db.Enc, 0)
 	if err != nil {
 		t.Fatalf("harness: pool: %v", err)
 	}
